@@ -93,6 +93,13 @@ def identity(x):
     return x
 
 
+def tuplify_path(optimize):
+    """Turn an explicit path, possibly given as (nested) lists, into tuples."""
+    return tuple(
+        tuple(con) if isinstance(con, list) else con for con in optimize
+    )
+
+
 _HASH_OPTIMIZE_PREPARERS = {}
 
 
@@ -102,8 +109,8 @@ def hash_prepare_optimize(optimize):
     try:
         h = _HASH_OPTIMIZE_PREPARERS[cls]
     except KeyError:
-        if isinstance(optimize, list):
-            h = _HASH_OPTIMIZE_PREPARERS[cls] = tuple
+        if isinstance(optimize, (list, tuple)):
+            h = _HASH_OPTIMIZE_PREPARERS[cls] = tuplify_path
         else:
             h = _HASH_OPTIMIZE_PREPARERS[cls] = identity
     return h(optimize)
